@@ -17,6 +17,11 @@ Class grammar (functions/*.py, operators/*.py), beyond DESIGN.md appendix A.1 / 
     same rendering (plain names, no conversion / format spec); the block loops may range over
     `range(self.partition.get_nb_blocks())` or `range(<local>)` where the local is assigned exactly once, at top
     level, from that call.
+  * LMI blocks (A.2): `N = len(L); T = np.empty([N, N], ...); for i ..: for j ..: T[i, j] = <entry>` followed either
+    by `psd = PSDMatrix(matrix_of_expressions=T); self.list_of_class_psd.append(psd)` -> plan item `LMI L entry` (the
+    matrix is appended whatever N, the 0 x 0 one included), or by the same two statements under `if N > 0:` (N the
+    very local bound to len(L)) -> `Guarded (GNonEmpty L) (LMI L entry)` (no LMI for an empty list).  The two forms
+    behave differently and are translated to different plan items.
 Everything else stays fail-closed.
 
 Generated files (coq/Gen/, never committed):
@@ -388,10 +393,29 @@ def translate_plan(cls, formulas, path):
             continue
         # LMI block:  N = len(L); T = np.empty(...); for i, point_i in enumerate(L): ...; psd = PSDMatrix(matrix_of_expressions=T); self.list_of_class_psd.append(psd)
         if isinstance(stmt, ast.Assign) and isinstance(stmt.value, ast.Call) and isinstance(stmt.value.func, ast.Name) \
-                and stmt.value.func.id == "len" and i + 4 < len(body):
+                and stmt.value.func.id == "len" and i + 3 < len(body):
             lname = list_ref(stmt.value.args[0], path)
             nvar = stmt.targets[0].id
-            s_empty, s_for, s_psd, s_app = body[i + 1:i + 5]
+            s_empty, s_for = body[i + 1:i + 3]
+            # the PSDMatrix + append pair, either bare (the matrix is appended whatever N, 0 x 0 included) or guarded by
+            # `if <N> > 0:` with <N> the local bound to len(<the list the loops range over>) (no LMI for an empty list)
+            guarded = False
+            nxt = body[i + 3]
+            if isinstance(nxt, ast.If):
+                t = nxt.test
+                if not (not nxt.orelse and isinstance(t, ast.Compare) and len(t.ops) == 1 and isinstance(t.ops[0], ast.Gt)
+                        and isinstance(t.left, ast.Name) and t.left.id == nvar
+                        and isinstance(t.comparators[0], ast.Constant) and t.comparators[0].value == 0
+                        and not isinstance(t.comparators[0].value, bool) and len(nxt.body) == 2):
+                    raise Untranslatable(nxt, "expected  if %s > 0:  guarding PSDMatrix(...) and its append" % nvar, path)
+                s_psd, s_app = nxt.body
+                guarded = True
+                consumed = 4
+            else:
+                if i + 4 >= len(body):
+                    raise Untranslatable(stmt, "incomplete LMI block", path)
+                s_psd, s_app = body[i + 3:i + 5]
+                consumed = 5
             if not (isinstance(s_empty, ast.Assign) and isinstance(s_empty.value, ast.Call)
                     and isinstance(s_empty.value.func, ast.Attribute) and s_empty.value.func.attr == "empty"):
                 raise Untranslatable(s_empty, "expected T = np.empty(...)", path)
@@ -417,8 +441,11 @@ def translate_plan(cls, formulas, path):
             n_lmi += 1
             dn = "lmi_%s_%d" % (cname, n_lmi)
             extra_defs.append((dn, "xterm", entry))
-            items.append("LMI %s %s" % (lname, dn))
-            i += 5
+            if guarded:
+                items.append("Guarded (GNonEmpty %s) (LMI %s %s)" % (lname, lname, dn))
+            else:
+                items.append("LMI %s %s" % (lname, dn))
+            i += consumed
             continue
         raise Untranslatable(stmt, "statement outside the plan grammar", path)
     return items, extra_defs
